@@ -9,5 +9,6 @@ var Scenarios = map[string]func() *Scenario{
 	"C06": C06Scenario,
 	"C07": C07Scenario,
 	"C08": C08Scenario,
+	"C09": C09Scenario,
 	"C11": C11Scenario,
 }
